@@ -184,7 +184,7 @@ mod builtins {
     use crate::formatting::{
         format as format_string, format_printf_with, FormatConversion, FormatStyle,
     };
-    use crate::utils::{safe_sort, splitn_whitespace};
+    use crate::utils::{safe_sort, splitn_whitespace, untrusted_size_hint};
     use crate::value::merge_object::{MergeDict, MergeSeq};
     use crate::value::ops::{self, as_f64, LenIterWrap};
     use crate::value::{
@@ -1025,6 +1025,13 @@ mod builtins {
         if count == 0 {
             return Err(Error::new(ErrorKind::InvalidOperation, "count cannot be 0"));
         }
+        // every slice is materialized, so the count is an allocation size
+        if count > 100000 {
+            return Err(Error::new(
+                ErrorKind::InvalidOperation,
+                "slice has too many columns",
+            ));
+        }
         let items = ok!(state.undefined_behavior().try_iter(value)).collect::<Vec<_>>();
         let len = items.len();
         let items_per_slice = len / count;
@@ -1083,13 +1090,13 @@ mod builtins {
             return Err(Error::new(ErrorKind::InvalidOperation, "count cannot be 0"));
         }
         let mut rv = Vec::with_capacity(value.len().unwrap_or(0) / count);
-        let mut tmp = Vec::with_capacity(count);
+        let mut tmp = Vec::with_capacity(untrusted_size_hint(count));
 
         for item in ok!(state.undefined_behavior().try_iter(value)) {
             if tmp.len() == count {
                 rv.push(Value::from(mem::replace(
                     &mut tmp,
-                    Vec::with_capacity(count),
+                    Vec::with_capacity(untrusted_size_hint(count)),
                 )));
             }
             tmp.push(item);
@@ -1097,6 +1104,13 @@ mod builtins {
 
         if !tmp.is_empty() {
             if let Some(filler) = fill_with {
+                // the padding is materialized, so the count is an allocation size
+                if count - tmp.len() > 100000 {
+                    return Err(Error::new(
+                        ErrorKind::InvalidOperation,
+                        "batch is too large to fill",
+                    ));
+                }
                 for _ in 0..count - tmp.len() {
                     tmp.push(filler.clone());
                 }
